@@ -93,6 +93,8 @@ struct upipe_tblk {
 
     /** current input allocator */
     uint32_t input_alloc;
+    /** true if the pipe holds a reference on itself while urefs are buffered */
+    bool buffered;
 
     /** public upipe structure */
     struct upipe upipe;
@@ -130,6 +132,7 @@ static struct upipe *upipe_tblk_alloc(struct upipe_mgr *mgr,
     upipe_tblk_init_output(upipe);
     upipe_tblk_init_input(upipe);
     upipe_tblk->input_alloc = UBUF_ALLOC_BLOCK;
+    upipe_tblk->buffered = false;
     upipe_throw_ready(upipe);
     return upipe;
 }
@@ -342,7 +345,11 @@ static void upipe_tblk_input(struct upipe *upipe, struct uref *uref,
         upipe_tblk_block_input(upipe, upump_p);
         /* Increment upipe refcount to avoid disappearing before all packets
          * have been sent. */
-        upipe_use(upipe);
+        struct upipe_tblk *upipe_tblk = upipe_tblk_from_upipe(upipe);
+        if (!upipe_tblk->buffered) {
+            upipe_tblk->buffered = true;
+            upipe_use(upipe);
+        }
     }
 }
 
@@ -361,14 +368,20 @@ static int upipe_tblk_check(struct upipe *upipe, struct uref *flow_format)
     if (upipe_tblk->flow_def == NULL)
         return UBASE_ERR_NONE;
 
-    bool was_buffered = !upipe_tblk_check_input(upipe);
+    /* The ubuf manager provider may answer from inside
+     * upipe_tblk_output_input (a buffered flow definition renews the
+     * request), which runs this function again: keep the pipe until we are
+     * done, and release the reference of upipe_tblk_input only once. */
+    upipe_use(upipe);
     upipe_tblk_output_input(upipe);
     upipe_tblk_unblock_input(upipe);
-    if (was_buffered && upipe_tblk_check_input(upipe)) {
+    if (upipe_tblk->buffered && upipe_tblk_check_input(upipe)) {
         /* All packets have been output, release again the pipe that has been
          * used in @ref upipe_tblk_input. */
+        upipe_tblk->buffered = false;
         upipe_release(upipe);
     }
+    upipe_release(upipe);
     return UBASE_ERR_NONE;
 }
 
